@@ -5,7 +5,7 @@ import numpy as rnp
 import z3
 
 from symx import ctx
-from symx.proxy import SR, SC, plain
+from symx.proxy import SR, SC, plain, SymbolicBranch
 from symx.shim import NumpyShim, clone, oarr, SymNd
 from . import kernels as K, result as R
 
@@ -84,7 +84,35 @@ def _sym_setup(rec, win_kind):
 
 
 def _mk(W, G, N, order, iscsd, backend, win_kind, win_stub, alpha, fs, x1, x2, plan=None, band=None, olap=0.5):
-    a = object.__new__(G["SpectrumAnalyzer"])
+    """an analyzer on the symbolic record: built by the REAL (cloned) constructor, so that whatever __init__ derives from the data or
+    stores on the instance is there; the window function / shape parameter / scheduler entries of its configuration are then pointed at
+    the harness's stand-ins.  (If the constructor cannot be run on symbolic input the instance is assembled field by field.)"""
+    cls = G["SpectrumAnalyzer"]
+    a = None
+    try:
+        data = x1 if not iscsd else rnp.array([list(x1), list(x2)], dtype=object).view(SymNd)
+        a = cls(data, fs, olap=olap, order=order, backend=backend, win=("kaiser" if win_kind == "kaiser" else win_stub), psll=120,
+                scheduler=(lambda **kw: plan), band=band, Lmin=1, bmin=1.0, Kdes=10, Jdes=5)
+        ok = a.nx == N and bool(a.iscsd) == bool(iscsd) and _same(rnp.asarray(a.x1), rnp.asarray(x1)) and (not iscsd or _same(rnp.asarray(a.x2), rnp.asarray(x2)))
+        if not ok:
+            W.note("constructor stored a different record than it was given")
+            W.goal("constructor/record stored as given", False)
+    except (ctx.NeedFork, SymbolicBranch, KeyboardInterrupt):
+        raise          # (a data-dependent branch in the constructor: the obligation is re-run path by path)
+    except Exception as e:
+        W.note("real constructor not usable on symbolic input (%s: %s): instance assembled field by field" % (type(e).__name__, str(e)[:120]))
+        import os
+        if os.environ.get("SYMX_DEBUG"):
+            import traceback; traceback.print_exc()
+        a = None
+    if a is not None:
+        keep = dict(a.config)
+        a.fs = fs
+        a.config.update({"order": order, "backend": backend, "win_func": win_stub, "alpha": alpha if win_kind == "kaiser" else None, "final_olap": olap,
+                         "band": band, "scheduler_func": (lambda **kw: plan), "scheduler_name": "stub"})
+        a._plan_cache = None
+        return a
+    a = object.__new__(cls)
     a.fs = fs; a.nx = N; a.verbose = False; a.iscsd = iscsd
     a.x1, a.x2 = x1, x2
     a.data = x1
@@ -105,6 +133,8 @@ def _check_call(W, tag, call, a, order, iscsd, backend, L, D, f_j, fs, win_kind,
     W.goal(tag + "/kernel-family", call["fam"] == fam, got=call["fam"])
     W.goal(tag + "/kernel-mode", call["mode"] == ("csd" if iscsd else "auto"))
     W.goal(tag + "/backend", call["backend"] == _expected_backend(len(D), backend), got=call["backend"])
+    if call["mode"] != ("csd" if iscsd else "auto") or call["fam"] != fam:
+        return None           # another kind of kernel was called (reported above): its argument list has another layout
     args = list(call["args"])
     W.goal(tag + "/channel-1", _same(args.pop(0), x1))
     if iscsd:
@@ -202,6 +232,10 @@ def _concrete_compute(W, Ls, Ks, order, iscsd, backend, win_kind, N, fs, fvals, 
     rng = rnp.random.default_rng(7)
     Nr = max(max(Ls) + 6, 1100 if max(Ks) > 1000 else 0)
     data = rng.standard_normal((2, Nr)) if iscsd else rng.standard_normal(Nr)
+    if Nr == N:
+        # the record of the solver's model (data-dependent dispatch can only be reproduced on the data that triggers it)
+        xs = rnp.array([float(v) for v in W.reals("x", N)])
+        data = rnp.vstack([xs, rnp.array([float(v) for v in W.reals("y", N)])]) if iscsd else xs
     fsr = float(fs) if fs > 0 else 1.0
     f = [abs(float(v)) % (fsr / 2) for v in fvals]
     D = [rnp.round(rnp.arange(k) * ((Nr - L) / max(k - 1, 1))).astype(rnp.int64) if k > 1 else rnp.array([0], dtype=rnp.int64) for L, k in zip(Ls, Ks)]
@@ -223,8 +257,8 @@ def _concrete_compute(W, Ls, Ks, order, iscsd, backend, win_kind, N, fs, fvals, 
             x2 = data[1] if iscsd else None
             ref = _ref_stats(x1, x2, D[j], L, w, 2 * math.pi * f[j] / fsr, order)
             got = [res.XX[j], res.YY[j], res.XY[j].real, res.XY[j].imag, res.M2[j]]
-            sc = 1e-9 * (1 + abs(ref[0]) + abs(ref[1]))
-            ok = ok and all(abs(g - r) <= sc + 1e-7 * abs(r) for g, r in zip(got, ref))
+            sc = 1e-9 * (abs(ref[0]) + abs(ref[1])) + 1e-300          # relative to the power in the bin (the record may be tiny)
+            ok = ok and all(abs(g - r) <= (sc if i < 4 else sc * sc / 1e-9 + 1e-300) + 1e-7 * abs(r) for i, (g, r) in enumerate(zip(got, ref)))
             ok = ok and abs(res.S12[j] - w.sum() ** 2) <= 1e-9 * w.sum() ** 2 and abs(res.S2[j] - (w * w).sum()) <= 1e-9 * (w * w).sum()
     except Exception as e:
         ok = False
